@@ -17,11 +17,11 @@ LEVEL = "exploration"
 
 # composition by construction
 COMP = {
-    "H": {"H": 1}, "H+": {"H": 1}, "H2": {"H": 2}, "e-": {}, "D": {"D": 1}, "HD": {"H": 1, "D": 1}, "C": {"C": 1}, "O": {"O": 1},
+    "H": {"H": 1}, "H+": {"H": 1}, "H2": {"H": 2}, "e-": {}, "E": {}, "D": {"D": 1}, "HD": {"H": 1, "D": 1}, "C": {"C": 1}, "O": {"O": 1},
     "CO": {"C": 1, "O": 1}, "#CO": {"C": 1, "O": 1}, "H2O": {"H": 2, "O": 1}, "GRAIN0": {"GRAIN": 1}, "GRAIN0-": {"GRAIN": 1},
 }
 POOL = [s for s in COMP if s != "H"]
-ALIASES = {"H": "HI", "H+": "HII", "H2": "H2I", "e-": "eM", "D": "DI", "HD": "HDI", "C": "CI", "O": "OI", "CO": "COI", "#CO": "GCOI", "H2O": "H2OI", "GRAIN0": "GRAIN0I", "GRAIN0-": "GRAIN0M"}
+ALIASES = {"H": "HI", "H+": "HII", "H2": "H2I", "e-": "eM", "E": "EM", "D": "DI", "HD": "HDI", "C": "CI", "O": "OI", "CO": "COI", "#CO": "GCOI", "H2O": "H2OI", "GRAIN0": "GRAIN0I", "GRAIN0-": "GRAIN0M"}
 PRIMES = [Fraction(1), Fraction(2), Fraction(3), Fraction(5, 7), Fraction(11, 13)]
 ABVALS = [Fraction(1), Fraction(2), Fraction(3), Fraction(1, 10**10), Fraction(7, 2)]
 
@@ -30,6 +30,8 @@ def species_sets(tier):
     kmax = 3 if tier == "quick" else 4
     for k in range(1, kmax + 1):
         for c in itertools.combinations(POOL, k):
+            if "E" in c and "e-" in c:
+                continue  # one species
             yield ["H"] + list(c)
             if k >= 2:
                 yield ["@linked", "H"] + list(c)
@@ -245,8 +247,9 @@ def run_set(species):
                 if bad:
                     viols.append((f"C16:ratio:{mode}:{ftag}", f"{label} [{backend}] {mode}: elements {bad}: ratios after renormalisation { {e: str(tot2[e]/tot2['H']) for e in bad} } reference { {e: str(ref[elem_slots[e]]) for e in bad} }", case))
                     break
-                if "e-" in slots and new[slots["e-"]] != ab[slots["e-"]]:
-                    viols.append((f"C16:electron-changed:{ftag}", f"{label} [{backend}]: electron abundance changed from {ab[slots['e-']]} to {new[slots['e-']]}", case))
+                el = "e-" if "e-" in slots else "E" if "E" in slots else None
+                if el and new[slots[el]] != ab[slots[el]]:
+                    viols.append((f"C16:electron-changed:{ftag}", f"{label} [{backend}]: electron abundance changed from {ab[slots[el]]} to {new[slots[el]]}", case))
                     break
                 if mode == "matching" and any(new[sl] != ab[sl] for sl in ab):
                     viols.append((f"C16:not-identity:{ftag}", f"{label} [{backend}]: ratios already match but abundances change", case))
@@ -390,7 +393,7 @@ def run(ctx):
     return {
         "evaluations": nchk,
         "distinct_nontrivial": len(sets),
-        "rule": "all species sets {H} + 1..4 (quick 1..3) of {H+, H2, e-, D, HD, C, O, CO, #CO, H2O, GRAIN0, GRAIN0-} x 3-5 positive abundance vectors x {matching, scaled} reference ratios x {cvode, odeint} text",
+        "rule": "all species sets {H} + 1..4 (quick 1..3) of {H+, H2, e-, E, D, HD, C, O, CO, #CO, H2O, GRAIN0, GRAIN0-} x 3-5 positive abundance vectors x {matching, scaled} reference ratios x {cvode, odeint} text",
         "samples": sets[:: max(1, len(sets) // 6)][:6],
         "species_sets": len(sets),
         "compiled_renorm_conformance_runs": nconf,
